@@ -1,16 +1,21 @@
 #!/usr/bin/env python3
 """
-tools/gen_lean.py — regenerate lean/KiraModel/Gen.lean from the Rust source in /repo.
+tools/gen_lean.py — regenerate lean/KiraModel/Gen.lean and lean/KiraModel/GenFn.lean from the Rust source in /repo
+(or $KV_REPO; $KV_GEN_OUT=<dir> writes the two files elsewhere — used by tools/gen_lean_selftest.py).
 
-Run by `./check` before every `lake build` (and by setup.sh).  The generated file holds constants
-and small structural facts *extracted from the current source*; the model and some theorems import
-it, so a change of such a constant in the Rust breaks a proof obligation directly.
+Run by `./check` before every `lake build` (and by setup.sh).  The generated files hold constants, enum shapes and
+PURE functions *translated from the current source*; the model takes the bodies of its definitions from them
+(`gen_body% Gen.x …`, KiraModel/Meta.lean) and Proofs/GenAgree*.lean pin them to the last validated hand-written
+readings, so a change of such an item in the Rust changes the model and breaks a proof obligation directly.
 
-Structure: a list of independent EXTRACTORS.  An extractor is a function `() -> str` returning a
-block of Lean definitions (inside `namespace K.Gen`).  It reads files with `src(path)` and finds
-things with `anchor(text, regex, what)`, which raises `Missing` — and the script exits 1, loudly —
-when the anchor pattern is not found.  To add your own: write a function, append it to EXTRACTORS.
-Gen.lean must stay import-free (core Lean only) and must not depend on KiraModel.Num.
+Two mechanisms:
+  * EXTRACTORS (Freeverb, delay): functions `() -> str` returning a block of Lean definitions; they find things with
+    `anchor(text, regex, what)`, which raises `Missing` when the anchor pattern is not found.
+  * `translate(S)`: the item list of the Rust-subset → Lean translator (tools/rs2lean.py; notes/translator.md).
+    To add an item: one `S.fn / S.const / S.value_in_fn / S.default_arg / S.snippet / S.enum / S.struct` line.
+In both cases an item that no longer matches makes the script print the item and exit 1 — loudly, never skipped.
+Gen.lean stays import-free; GenFn.lean imports only KiraModel.Num, KiraModel.Gen, KiraModel.Model.UnitTypes.
+`--manifest` prints the table Rust item → Lean name.
 """
 import os
 import re
